@@ -1,13 +1,1206 @@
 //go:build verif
 
-// placeholder: harness c05 is being written
+// Harness c05: keyset-level ("wrapped") primitives of all ten factories against the Lean selection
+// model (property C05). For generated keysets — mixed key types, prefix variants, statuses, primary
+// position, special ids, duplicated key material, manager histories, serialisation round trips —
+// every key (member, removed, foreign) produces an output with its own single-key primitive, the
+// acceptance row over the member keys is MEASURED on the single-key primitives, and the model is
+// asked what the keyset primitive must answer and which key id it must log. The real factories'
+// decisions, the producing key's prefix and the fakemonitoring log are the implementation's answer.
 package main
 
-import "github.com/tink-crypto/tink-go/v2/internal/verifharness/hlib"
+import (
+	"bytes"
+	"crypto/rand"
+	"fmt"
+	"strings"
+
+	"github.com/tink-crypto/tink-go/v2/aead"
+	"github.com/tink-crypto/tink-go/v2/daead"
+	"github.com/tink-crypto/tink-go/v2/hybrid"
+	"github.com/tink-crypto/tink-go/v2/insecurecleartextkeyset"
+	"github.com/tink-crypto/tink-go/v2/internal/internalapi"
+	"github.com/tink-crypto/tink-go/v2/internal/internalregistry"
+	"github.com/tink-crypto/tink-go/v2/internal/verifharness/hlib"
+	"github.com/tink-crypto/tink-go/v2/jwt"
+	"github.com/tink-crypto/tink-go/v2/key"
+	"github.com/tink-crypto/tink-go/v2/keyset"
+	"github.com/tink-crypto/tink-go/v2/mac"
+	"github.com/tink-crypto/tink-go/v2/prf"
+	"github.com/tink-crypto/tink-go/v2/signature"
+	"github.com/tink-crypto/tink-go/v2/streamingaead"
+	"github.com/tink-crypto/tink-go/v2/testing/fakemonitoring"
+	"github.com/tink-crypto/tink-go/v2/tink"
+)
+
+// ---------------------------------------------------------------- deterministic crypto/rand
+
+// detTape replaces crypto/rand.Reader. The bytes of a Read depend only on (seed, epoch, length of
+// the read, how many reads of that length happened in the epoch): the 0-or-1 byte that the Go
+// standard library draws at random (randutil.MaybeReadByte) cannot shift anything else, so nonces,
+// ECDSA signatures and random key ids are functions of the seed.
+type detTape struct {
+	seed   uint64
+	epoch  uint64
+	counts map[int]int
+	force  []byte // put at the start of the next read of at least 12 bytes (a nonce / IV / salt)
+}
+
+func (t *detTape) Read(p []byte) (int, error) {
+	idx := t.counts[len(p)]
+	t.counts[len(p)] = idx + 1
+	r := hlib.NewRng(t.seed, fmt.Sprintf("tape/%d/%d/%d", t.epoch, len(p), idx))
+	copy(p, r.Bytes(len(p)))
+	if len(t.force) > 0 && len(p) >= 12 {
+		copy(p, t.force)
+		t.force = nil
+	}
+	return len(p), nil
+}
+
+func (t *detTape) next() {
+	t.force = nil
+	t.epoch++
+	t.counts = map[int]int{}
+}
+
+var tape *detTape
+
+// vio records an oracle violation, at most three per kind of message (hlib keeps 20 in total: one
+// noisy kind must not crowd out the others).
+var vioSeen = map[string]int{}
+
+func vio(o *hlib.Out, format string, a ...any) {
+	vioSeen[format]++
+	if vioSeen[format] <= 3 {
+		o.Violate(format, a...)
+	}
+}
+
+// ---------------------------------------------------------------- families
+
+func families() []*family {
+	pick := func(cfg keyset.Config, plain, with func() (any, error)) (any, error) {
+		if cfg == nil {
+			return plain()
+		}
+		return with()
+	}
+	fs := []*family{
+		{name: "aead", cmd: "accept", nkinds: 7, stubKind: 6, hasLog: true, prodCtx: [2]string{"aead", "encrypt"}, accCtx: [2]string{"aead", "decrypt"},
+			variants: func(k int) []int {
+				switch k {
+				case 5:
+					return []int{vT, vR}
+				case 6:
+					return tclr
+				}
+				return tcr
+			}, gen: genAEAD,
+			wrap: func(priv, pub *keyset.Handle, cfg keyset.Config) (*wrapped, error) {
+				p, err := pick(cfg, func() (any, error) { return aead.New(priv) }, func() (any, error) { return aead.NewWithConfig(priv, cfg) })
+				if err != nil {
+					return nil, err
+				}
+				a := p.(tink.AEAD)
+				return &wrapped{produce: func(in probeIn) ([]byte, error) { return a.Encrypt(fresh(in.pt), fresh(in.x)) },
+					accept: func(y []byte, in probeIn) ([]byte, error) { return a.Decrypt(fresh(y), fresh(in.x)) }}, nil
+			}},
+		{name: "daead", cmd: "accept", nkinds: 2, stubKind: 1, hasLog: true, prodCtx: [2]string{"daead", "encrypt"}, accCtx: [2]string{"daead", "decrypt"},
+			variants: func(k int) []int {
+				if k == 1 {
+					return tclr
+				}
+				return tcr
+			}, gen: genDAEAD,
+			wrap: func(priv, pub *keyset.Handle, cfg keyset.Config) (*wrapped, error) {
+				p, err := pick(cfg, func() (any, error) { return daead.New(priv) }, func() (any, error) { return daead.NewWithConfig(priv, cfg) })
+				if err != nil {
+					return nil, err
+				}
+				a := p.(tink.DeterministicAEAD)
+				return &wrapped{produce: func(in probeIn) ([]byte, error) { return a.EncryptDeterministically(fresh(in.pt), fresh(in.x)) },
+					accept: func(y []byte, in probeIn) ([]byte, error) { return a.DecryptDeterministically(fresh(y), fresh(in.x)) }}, nil
+			}},
+		{name: "mac", cmd: "mac", nkinds: 3, stubKind: 2, hasLog: true, prodCtx: [2]string{"mac", "compute"}, accCtx: [2]string{"mac", "verify"},
+			variants: func(int) []int { return tclr }, gen: genMAC,
+			wrap: func(priv, pub *keyset.Handle, cfg keyset.Config) (*wrapped, error) {
+				p, err := pick(cfg, func() (any, error) { return mac.New(priv) }, func() (any, error) { return mac.NewWithConfig(priv, cfg) })
+				if err != nil {
+					return nil, err
+				}
+				a := p.(tink.MAC)
+				return &wrapped{produce: func(in probeIn) ([]byte, error) { return a.ComputeMAC(fresh(in.x)) },
+					accept: func(y []byte, in probeIn) ([]byte, error) { return nil, a.VerifyMAC(fresh(y), fresh(in.x)) }}, nil
+			}},
+		{name: "signature", cmd: "accept", nkinds: 7, stubKind: 6, public: true, hasLog: true,
+			prodCtx: [2]string{"public_key_sign", "sign"}, accCtx: [2]string{"public_key_verify", "verify"},
+			variants: func(int) []int { return tclr }, gen: genSig,
+			wrap: func(priv, pub *keyset.Handle, cfg keyset.Config) (*wrapped, error) {
+				ps, err := pick(cfg, func() (any, error) { return signature.NewSigner(priv) }, func() (any, error) { return signature.NewSignerWithConfig(priv, cfg) })
+				if err != nil {
+					return nil, err
+				}
+				pv, err := pick(cfg, func() (any, error) { return signature.NewVerifier(pub) }, func() (any, error) { return signature.NewVerifierWithConfig(pub, cfg) })
+				if err != nil {
+					return nil, err
+				}
+				s, v := ps.(tink.Signer), pv.(tink.Verifier)
+				return &wrapped{produce: func(in probeIn) ([]byte, error) { return s.Sign(fresh(in.x)) },
+					accept: func(y []byte, in probeIn) ([]byte, error) { return nil, v.Verify(fresh(y), fresh(in.x)) }}, nil
+			}},
+		{name: "hybrid", cmd: "accept", nkinds: 6, stubKind: 5, public: true, hasLog: true,
+			prodCtx: [2]string{"hybrid_encrypt", "encrypt"}, accCtx: [2]string{"hybrid_decrypt", "decrypt"},
+			variants: func(k int) []int {
+				if k == 5 {
+					return tclr
+				}
+				return tcr
+			}, gen: genHybrid,
+			wrap: func(priv, pub *keyset.Handle, cfg keyset.Config) (*wrapped, error) {
+				pe, err := pick(cfg, func() (any, error) { return hybrid.NewHybridEncrypt(pub) }, func() (any, error) { return hybrid.NewHybridEncryptWithConfig(pub, cfg) })
+				if err != nil {
+					return nil, err
+				}
+				pd, err := pick(cfg, func() (any, error) { return hybrid.NewHybridDecrypt(priv) }, func() (any, error) { return hybrid.NewHybridDecryptWithConfig(priv, cfg) })
+				if err != nil {
+					return nil, err
+				}
+				e, d := pe.(tink.HybridEncrypt), pd.(tink.HybridDecrypt)
+				return &wrapped{produce: func(in probeIn) ([]byte, error) { return e.Encrypt(fresh(in.pt), fresh(in.x)) },
+					accept: func(y []byte, in probeIn) ([]byte, error) { return d.Decrypt(fresh(y), fresh(in.x)) }}, nil
+			}},
+		{name: "jwtmac", cmd: "tryall", nkinds: 3, stubKind: -1, hasLog: true, prodCtx: [2]string{"jwtmac", "compute"}, accCtx: [2]string{"jwtmac", "verify"},
+			variants: func(int) []int { return []int{vT, vR, vK} }, gen: genJWTMAC,
+			wrap: func(priv, pub *keyset.Handle, cfg keyset.Config) (*wrapped, error) {
+				p, err := pick(cfg, func() (any, error) { return jwt.NewMAC(priv) }, func() (any, error) { return jwt.NewMACWithConfig(priv, cfg) })
+				if err != nil {
+					return nil, err
+				}
+				a := p.(jwt.MAC)
+				return &wrapped{produce: func(in probeIn) ([]byte, error) {
+					t, err := a.ComputeMACAndEncode(rawJWTOf(in))
+					return []byte(t), err
+				}, accept: func(y []byte, in probeIn) ([]byte, error) {
+					v, err := a.VerifyMACAndDecode(string(y), jwtValidator)
+					if err != nil {
+						return nil, err
+					}
+					return issuerOf(v), nil
+				}}, nil
+			}},
+		{name: "jwtsig", cmd: "tryall", nkinds: 2, stubKind: -1, public: true, hasLog: true, prodCtx: [2]string{"jwtsign", "sign"}, accCtx: [2]string{"jwtverify", "verify"},
+			variants: func(int) []int { return []int{vT, vR, vK} }, gen: genJWTSig,
+			wrap: func(priv, pub *keyset.Handle, cfg keyset.Config) (*wrapped, error) {
+				ps, err := pick(cfg, func() (any, error) { return jwt.NewSigner(priv) }, func() (any, error) { return jwt.NewSignerWithConfig(priv, cfg) })
+				if err != nil {
+					return nil, err
+				}
+				pv, err := pick(cfg, func() (any, error) { return jwt.NewVerifier(pub) }, func() (any, error) { return jwt.NewVerifierWithConfig(pub, cfg) })
+				if err != nil {
+					return nil, err
+				}
+				s, v := ps.(jwt.Signer), pv.(jwt.Verifier)
+				return &wrapped{produce: func(in probeIn) ([]byte, error) {
+					t, err := s.SignAndEncode(rawJWTOf(in))
+					return []byte(t), err
+				}, accept: func(y []byte, in probeIn) ([]byte, error) {
+					vj, err := v.VerifyAndDecode(string(y), jwtValidator)
+					if err != nil {
+						return nil, err
+					}
+					return issuerOf(vj), nil
+				}}, nil
+			}},
+		{name: "streamingaead", cmd: "tryall", nkinds: 3, stubKind: 2, hasLog: false,
+			variants: func(int) []int { return []int{vR} }, gen: genStream,
+			wrap: func(priv, pub *keyset.Handle, cfg keyset.Config) (*wrapped, error) {
+				p, err := pick(cfg, func() (any, error) { return streamingaead.New(priv) }, func() (any, error) { return streamingaead.NewWithConfig(priv, cfg) })
+				if err != nil {
+					return nil, err
+				}
+				a := p.(tink.StreamingAEAD)
+				return &wrapped{produce: func(in probeIn) ([]byte, error) { return streamEncrypt(a, in) },
+					accept: func(y []byte, in probeIn) ([]byte, error) { return streamDecrypt(a, y, in) }}, nil
+			}},
+		{name: "prf", cmd: "prf", nkinds: 4, stubKind: 3, hasLog: true, prodCtx: [2]string{"prf", "compute"}, accCtx: [2]string{"prf", "compute"},
+			variants: func(int) []int { return []int{vR} }, gen: genPRF,
+			wrap: func(priv, pub *keyset.Handle, cfg keyset.Config) (*wrapped, error) {
+				var s *prf.Set
+				var err error
+				if cfg == nil {
+					s, err = prf.NewPRFSet(priv)
+				} else {
+					s, err = prf.NewPRFSetWithConfig(priv, cfg)
+				}
+				if err != nil {
+					return nil, err
+				}
+				return &wrapped{prfs: s}, nil
+			}},
+	}
+	return fs
+}
+
+// ---------------------------------------------------------------- one keyset under test
+
+type env struct {
+	o       *hlib.Out
+	rng     *hlib.Rng
+	f       *family
+	caseNo  int
+	client  *fakemonitoring.Client
+	members []*kspec
+	removed []*kspec
+	foreign []*kspec
+	keyIdx  map[key.Key]int // key object held by the final handles → member index
+	spy     *spyLog
+	w1, w2  *wrapped
+	w3      *wrapped // built from handles WITHOUT annotations (public one straight from Handle.Public()): must decide alike and log nothing
+	nontriv bool
+	build   string
+}
+
+var annotations = map[string]string{"verif": "c05"}
+
+var statusLetter = map[keyset.KeyStatus]string{keyset.Enabled: "E", keyset.Disabled: "D", keyset.Destroyed: "X"}
+
+type idAlloc struct {
+	rng  *hlib.Rng
+	used map[uint32]bool
+}
+
+func (a *idAlloc) next() uint32 {
+	id := a.rng.KeyID()
+	for a.used[id] {
+		id = uint32(a.rng.U64())
+	}
+	a.used[id] = true
+	return id
+}
+
+func (e *env) mk(kind, variant int, id uint32, matSeed string, hdr []byte) *kspec {
+	tape.next()
+	if kind != e.f.stubKind {
+		hdr = nil
+	}
+	s := e.f.gen(kind, variant, id, hlib.NewRng(*hlib.FlagSeed, matSeed), hdr)
+	s.matSeed = matSeed
+	return s
+}
+
+// prefixBytes: the 5-byte output prefix of a non-RAW key (TINK: 0x01, CRUNCHY/LEGACY: 0x00, then the id big-endian).
+func prefixBytes(variant int, id uint32) []byte {
+	b := []byte{0, byte(id >> 24), byte(id >> 16), byte(id >> 8), byte(id)}
+	if variant == vT {
+		b[0] = 1
+	}
+	return b
+}
+
+func pickOf(rng *hlib.Rng, xs []int) int { return xs[rng.Intn(len(xs))] }
+
+func (e *env) pickKind() int {
+	f := e.f
+	if f.stubKind >= 0 && e.rng.Chance(18) {
+		return f.stubKind
+	}
+	n := f.nkinds
+	if f.stubKind >= 0 {
+		n--
+	}
+	k := e.rng.Intn(n)
+	if f.name == "signature" && k == 5 && e.rng.Chance(60) { // RSA: keep it rarer (slow to build)
+		k = e.rng.Intn(5)
+	}
+	return k
+}
+
+func has(xs []int, v int) bool {
+	for _, x := range xs {
+		if x == v {
+			return true
+		}
+	}
+	return false
+}
+
+// pool draws n key specs with the deliberate structures: shared material under two ids, two RAW keys.
+func (e *env) pool(n int, ids *idAlloc) []*kspec {
+	rng, f := e.rng, e.f
+	type sl struct {
+		kind, variant int
+		mat           string
+		id            uint32
+		hdr           []byte
+	}
+	sls := make([]sl, n)
+	for i := range sls {
+		k := e.pickKind()
+		sls[i] = sl{kind: k, variant: pickOf(rng, f.variants(k)), mat: fmt.Sprintf("c05/%s/%d/%d", f.name, e.caseNo, i)}
+	}
+	if n >= 2 && rng.Chance(45) {
+		j := 1 + rng.Intn(n-1)
+		i := rng.Intn(j)
+		sls[j].kind, sls[j].mat = sls[i].kind, sls[i].mat
+		sls[j].variant = pickOf(rng, f.variants(sls[i].kind))
+		e.o.Count(f.name + "/structure/same-material-two-ids")
+	}
+	if n >= 2 && rng.Chance(30) {
+		c := 0
+		for _, i := range []int{rng.Intn(n), rng.Intn(n)} {
+			if has(f.variants(sls[i].kind), vR) {
+				sls[i].variant = vR
+				c++
+			}
+		}
+		if c == 2 {
+			e.o.Count(f.name + "/structure/two-raw-forced")
+		}
+	}
+	for i := range sls {
+		sls[i].id = ids.next()
+	}
+	// a stub key whose RAW primitive itself starts every output with the 5 prefix bytes of another
+	// key of the pool: as a RAW member its outputs fall into that key's prefix bucket
+	if f.cmd == "accept" || f.cmd == "mac" {
+		for i := range sls {
+			if sls[i].kind != f.stubKind || n < 2 || !rng.Chance(60) {
+				continue
+			}
+			j := rng.Intn(n)
+			if j == i || sls[j].variant == vR {
+				continue
+			}
+			sls[i].hdr = prefixBytes(sls[j].variant, sls[j].id)
+			if sls[i].variant == vR {
+				e.o.Count(f.name + "/structure/raw-key-emitting-another-keys-prefix")
+			}
+		}
+	}
+	out := make([]*kspec, n)
+	for i, s := range sls {
+		out[i] = e.mk(s.kind, s.variant, s.id, s.mat, s.hdr)
+	}
+	return out
+}
+
+func addErr(err error) {
+	if err != nil {
+		panic(fmt.Sprintf("harness: manager rejected a valid operation: %v", err))
+	}
+}
+
+// buildDirect adds the keys in order with fixed id, status and primary flag.
+func (e *env) buildDirect(km *keyset.Manager, pool []*kspec) {
+	rng := e.rng
+	prim := rng.Intn(len(pool))
+	late := rng.Chance(30) // promote with SetPrimary afterwards instead of AsPrimary
+	for i, s := range pool {
+		s.status = keyset.Enabled
+		if i != prim {
+			switch rng.Intn(10) {
+			case 0, 1, 2:
+				s.status = keyset.Disabled
+			case 3, 4:
+				s.status = keyset.Destroyed
+			}
+		}
+		opts := []keyset.KeyOpts{keyset.WithFixedID(s.id), keyset.WithStatus(s.status)}
+		if i == prim && !late {
+			opts = append(opts, keyset.AsPrimary())
+			s.primary = true
+		}
+		_, err := km.AddKeyWithOpts(s.key, internalapi.Token{}, opts...)
+		addErr(err)
+		e.members = append(e.members, s)
+	}
+	if late {
+		addErr(km.SetPrimary(pool[prim].id))
+		pool[prim].primary = true
+	}
+}
+
+// buildHistory runs a random valid manager history (add / promote / disable / enable / delete).
+func (e *env) buildHistory(km *keyset.Manager, pool []*kspec) (unused []*kspec) {
+	rng := e.rng
+	add := func(s *kspec, forcePrimary bool) {
+		s.status = keyset.Enabled
+		if !forcePrimary {
+			switch rng.Intn(10) {
+			case 0, 1:
+				s.status = keyset.Disabled
+			case 2, 3:
+				s.status = keyset.Destroyed
+			}
+		}
+		asPrim := forcePrimary || (s.status == keyset.Enabled && rng.Chance(25))
+		_, needID := s.key.IDRequirement()
+		if s.status == keyset.Enabled && !asPrim && rng.Chance(50) {
+			// public API; keys without id requirement receive a random id (from the tape)
+			id, err := km.AddKey(s.key)
+			addErr(err)
+			if needID && id != s.id {
+				panic("AddKey ignored the id requirement")
+			}
+			s.id = id
+			e.o.Count(e.f.name + "/history/AddKey")
+		} else {
+			opts := []keyset.KeyOpts{keyset.WithStatus(s.status)}
+			if needID || rng.Chance(70) {
+				opts = append(opts, keyset.WithFixedID(s.id))
+			}
+			if asPrim {
+				opts = append(opts, keyset.AsPrimary())
+			}
+			id, err := km.AddKeyWithOpts(s.key, internalapi.Token{}, opts...)
+			addErr(err)
+			s.id = id
+			e.o.Count(e.f.name + "/history/AddKeyWithOpts")
+		}
+		if asPrim {
+			for _, m := range e.members {
+				m.primary = false
+			}
+			s.primary = true
+		}
+		e.members = append(e.members, s)
+	}
+	add(pool[0], true)
+	next := 1
+	steps := 2*len(pool) + rng.Intn(6)
+	sel := func(pred func(*kspec) bool) *kspec {
+		var c []*kspec
+		for _, m := range e.members {
+			if pred(m) {
+				c = append(c, m)
+			}
+		}
+		if len(c) == 0 {
+			return nil
+		}
+		return c[rng.Intn(len(c))]
+	}
+	for st := 0; st < steps; st++ {
+		switch r := rng.Intn(10); {
+		case r < 4:
+			if next < len(pool) && len(e.members) < 6 {
+				add(pool[next], false)
+				next++
+			}
+		case r < 6:
+			if m := sel(func(m *kspec) bool { return m.status == keyset.Enabled }); m != nil {
+				addErr(km.SetPrimary(m.id))
+				for _, x := range e.members {
+					x.primary = false
+				}
+				m.primary = true
+				e.o.Count(e.f.name + "/history/SetPrimary")
+			}
+		case r < 7:
+			if m := sel(func(m *kspec) bool { return m.status == keyset.Enabled && !m.primary }); m != nil {
+				addErr(km.Disable(m.id))
+				m.status = keyset.Disabled
+				e.o.Count(e.f.name + "/history/Disable")
+			}
+		case r < 8:
+			if m := sel(func(m *kspec) bool { return m.status == keyset.Disabled }); m != nil {
+				addErr(km.Enable(m.id))
+				m.status = keyset.Enabled
+				e.o.Count(e.f.name + "/history/Enable")
+			}
+		default:
+			if m := sel(func(m *kspec) bool { return !m.primary }); m != nil && len(e.members) > 1 {
+				addErr(km.Delete(m.id))
+				for i, x := range e.members {
+					if x == m {
+						e.members = append(e.members[:i:i], e.members[i+1:]...)
+						break
+					}
+				}
+				e.removed = append(e.removed, m)
+				e.o.Count(e.f.name + "/history/Delete")
+			}
+		}
+	}
+	return pool[next:]
+}
+
+func roundTrip(h *keyset.Handle, opts ...keyset.Option) *keyset.Handle {
+	var buf bytes.Buffer
+	if err := insecurecleartextkeyset.Write(h, keyset.NewBinaryWriter(&buf)); err != nil {
+		panic(err)
+	}
+	return must(insecurecleartextkeyset.Read(keyset.NewBinaryReader(&buf), opts...))
+}
+
+// checkHandle compares the handle given to the factories with what the harness told the manager,
+// and records which key object sits at which index.
+func (e *env) checkHandle(h *keyset.Handle, what string, public bool) bool {
+	if h.Len() != len(e.members) {
+		vio(e.o, "%s handle has %d entries, the manager was given %d", what, h.Len(), len(e.members))
+		return false
+	}
+	ok := true
+	for i, m := range e.members {
+		en := must(h.Entry(i))
+		k := en.Key()
+		if j, dup := e.keyIdx[k]; dup && j != i {
+			panic("harness: two members share one key object")
+		}
+		e.keyIdx[k] = i
+		if en.KeyID() != m.id || en.KeyStatus() != m.status || en.IsPrimary() != m.primary {
+			vio(e.o, "%s handle entry %d is (id %d, %v, primary %v); the manager history gives (id %d, %v, primary %v)",
+				what, i, en.KeyID(), en.KeyStatus(), en.IsPrimary(), m.id, m.status, m.primary)
+			ok = false
+		}
+		if e.f.cmd == "accept" || e.f.cmd == "mac" {
+			if !bytes.Equal(prefixOf(k), m.prefix) {
+				vio(e.o, "%s handle entry %d has output prefix %x, the key was created with %x", what, i, prefixOf(k), m.prefix)
+				ok = false
+			}
+		}
+	}
+	return ok
+}
+
+func (e *env) keysLine() string {
+	parts := make([]string, len(e.members))
+	for i, m := range e.members {
+		parts[i] = fmt.Sprintf("%d:%s:%s:%s", m.id, statusLetter[m.status], hlib.B01(m.primary), hlib.Tok(m.prefix))
+	}
+	return "W keys " + strings.Join(parts, ";")
+}
+
+func (e *env) primary() *kspec {
+	for _, m := range e.members {
+		if m.primary {
+			return m
+		}
+	}
+	return nil
+}
+
+// ---------------------------------------------------------------- monitored calls
+
+type outcome struct {
+	ok     bool
+	out    []byte
+	logged int64 // logged key id, -1 if none
+}
+
+// call runs one wrapped operation and reads what it logged.
+func (e *env) call(ctx [2]string, what string, fn func() ([]byte, error)) outcome {
+	ne, nf := len(e.client.Events()), len(e.client.Failures())
+	var out []byte
+	var err error
+	if p := hlib.Recover(func() { out, err = fn() }); p != "" {
+		vio(e.o, "%s %s PANICS: %s (keyset [%s])", e.f.name, what, p, strings.TrimPrefix(e.keysLine(), "W keys "))
+		return outcome{ok: false, logged: -1}
+	}
+	evs, fls := e.client.Events()[ne:], e.client.Failures()[nf:]
+	r := outcome{ok: err == nil, out: out, logged: -1}
+	if !e.f.hasLog {
+		if len(evs)+len(fls) != 0 {
+			vio(e.o, "%s %s: unexpected monitoring records (%d events, %d failures)", e.f.name, what, len(evs), len(fls))
+		}
+		return r
+	}
+	if err == nil {
+		if len(evs) != 1 || len(fls) != 0 {
+			vio(e.o, "%s %s succeeded but logged %d events and %d failures (want exactly one event)", e.f.name, what, len(evs), len(fls))
+		}
+		if len(evs) >= 1 {
+			ev := evs[len(evs)-1]
+			r.logged = int64(ev.KeyID)
+			if ev.Context.Primitive != ctx[0] || ev.Context.APIFunction != ctx[1] {
+				vio(e.o, "%s %s logged under context %s/%s, want %s/%s", e.f.name, what, ev.Context.Primitive, ev.Context.APIFunction, ctx[0], ctx[1])
+			}
+			e.checkKeysetInfo(ev.Context.KeysetInfo.PrimaryKeyID, len(ev.Context.KeysetInfo.Entries))
+		}
+	} else {
+		if len(fls) != 1 || len(evs) != 0 {
+			vio(e.o, "%s %s failed but logged %d failures and %d events (want exactly one failure, no event)", e.f.name, what, len(fls), len(evs))
+		}
+		if len(fls) >= 1 {
+			c := fls[len(fls)-1].Context
+			if c.Primitive != ctx[0] || c.APIFunction != ctx[1] {
+				vio(e.o, "%s %s failure logged under context %s/%s, want %s/%s", e.f.name, what, c.Primitive, c.APIFunction, ctx[0], ctx[1])
+			}
+		}
+	}
+	return r
+}
+
+func (e *env) checkKeysetInfo(primaryID uint32, nEntries int) {
+	en := 0
+	for _, m := range e.members {
+		if m.status == keyset.Enabled {
+			en++
+		}
+	}
+	if p := e.primary(); p != nil && (primaryID != p.id || nEntries != en) {
+		vio(e.o, "%s: monitoring keyset info names primary %d with %d entries, the keyset has primary %d and %d enabled keys", e.f.name, primaryID, nEntries, p.id, en)
+	}
+}
+
+func (r outcome) res() string {
+	if !r.ok {
+		return "reject"
+	}
+	if r.logged < 0 {
+		return "ok nolog"
+	}
+	return fmt.Sprintf("ok %d", r.logged)
+}
+
+// workerIdx: member index of the key whose primitive made the last spied call succeed.
+func (e *env) workerIdx() int {
+	k, ok := e.spy.worker()
+	if !ok {
+		return -1
+	}
+	i, ok := e.keyIdx[k]
+	if !ok {
+		return -2
+	}
+	return i
+}
+
+// ---------------------------------------------------------------- probes
+
+func (e *env) probe(y []byte, in probeIn, src, mut string) {
+	o, f := e.o, e.f
+	bits := make([]byte, len(e.members))
+	outs := make([][]byte, len(e.members))
+	enabledAcc := false
+	for i, m := range e.members {
+		ok, out := m.accepts(y, in)
+		bits[i] = '0'
+		if ok {
+			bits[i] = '1'
+			outs[i] = out
+			if m.status == keyset.Enabled {
+				enabledAcc = true
+			}
+		}
+	}
+	r1 := e.call(f.accCtx, "accept", func() ([]byte, error) { return e.w1.accept(y, in) })
+	e.spy.reset()
+	r2 := e.call(f.accCtx, "accept(spied)", func() ([]byte, error) { return e.w2.accept(y, in) })
+	wi := e.workerIdx()
+	if e.w3 != nil {
+		ne, nf := len(e.client.Events()), len(e.client.Failures())
+		var out3 []byte
+		var err3 error
+		if p := hlib.Recover(func() { out3, err3 = e.w3.accept(y, in) }); p != "" {
+			err3 = fmt.Errorf("panic: %s", p)
+		}
+		if (err3 == nil) != r1.ok || !bytes.Equal(out3, r1.out) {
+			vio(o, "%s: the primitive of the un-annotated handle decides differently (%v vs %v) on y=%s", f.name, err3 == nil, r1.ok, hlib.Tok(y))
+		}
+		if len(e.client.Events()) != ne || len(e.client.Failures()) != nf {
+			vio(o, "%s: a primitive built from a handle without annotations logged to the monitoring client", f.name)
+		}
+		o.Count(f.name + "/unannotated-handle-probes")
+	}
+
+	var op string
+	switch f.cmd {
+	case "tryall":
+		op = "W tryall " + string(bits)
+	default:
+		n := len(y)
+		if n > 5 {
+			n = 5
+		}
+		op = fmt.Sprintf("W %s %s %d %s", f.cmd, hlib.Tok(y[:n]), len(y), bits)
+	}
+	res := r1.res()
+	if !f.hasLog && r1.ok {
+		// streaming AEAD logs nothing: the working key is the one the recorder saw
+		if wi >= 0 {
+			res = fmt.Sprintf("ok %d", e.members[wi].id)
+		} else {
+			res = "ok unknown-worker"
+		}
+	}
+	o.Emit(op, res, e.nontriv)
+	verdict := "reject"
+	if r1.ok {
+		verdict = "accept"
+	}
+	o.Count(fmt.Sprintf("%s/src=%s/%s", f.name, src, verdict))
+	o.Count(fmt.Sprintf("%s/mut=%s/%s", f.name, mut, verdict))
+
+	desc := func() string {
+		return fmt.Sprintf("%s keyset [%s] probe %s/%s y=%s x=%s bits=%s", f.name, strings.TrimPrefix(e.keysLine(), "W keys "), src, mut, hlib.Tok(y), hlib.Tok(in.x), bits)
+	}
+	// --- property oracles on the real code
+	if r1.ok != r2.ok || (f.hasLog && r1.logged != r2.logged) || !bytes.Equal(r1.out, r2.out) {
+		vio(o, "factory New and NewWithConfig(registry primitives) disagree: %v/%d vs %v/%d (%s)", r1.ok, r1.logged, r2.ok, r2.logged, desc())
+	}
+	if r1.ok && !enabledAcc {
+		if src != "E" && src != "wrapped" {
+			vio(o, "output of a %s key was accepted although no ENABLED key of the keyset accepts it (%s)", src, desc())
+		} else {
+			vio(o, "accepted although no ENABLED key of the keyset accepts it (%s)", desc())
+		}
+	}
+	if !r1.ok && enabledAcc && !(f.cmd == "mac" && len(y) <= 5) {
+		vio(o, "rejected although an ENABLED key of the keyset accepts it (%s)", desc())
+	}
+	if r1.ok {
+		if f.hasLog {
+			hit := false
+			for i, m := range e.members {
+				if int64(m.id) == r1.logged && m.status == keyset.Enabled && bits[i] == '1' {
+					hit = true
+					if !bytes.Equal(outs[i], r1.out) {
+						vio(o, "the result differs from what the logged key %d yields on its own (%s)", m.id, desc())
+					}
+				}
+			}
+			if !hit {
+				vio(o, "logged key id %d is not an ENABLED key of the keyset that accepts the input (%s)", r1.logged, desc())
+			}
+		}
+		if r2.ok {
+			switch {
+			case wi < 0:
+				vio(o, "accepted, but no key's primitive reported a successful call (%s)", desc())
+			case e.members[wi].status != keyset.Enabled:
+				vio(o, "the call was served by the %v key %d (%s)", e.members[wi].status, e.members[wi].id, desc())
+			case f.hasLog && int64(e.members[wi].id) != r2.logged:
+				vio(o, "key %d did the work but key id %d was logged (%s)", e.members[wi].id, r2.logged, desc())
+			case bits[wi] != '1':
+				vio(o, "key %d served the call although its single-key primitive rejects the input (%s)", e.members[wi].id, desc())
+			case !bytes.Equal(outs[wi], r2.out):
+				vio(o, "the result differs from what the working key %d yields on its own (%s)", e.members[wi].id, desc())
+			}
+		}
+	}
+}
+
+func flipBit(rng *hlib.Rng, y []byte) []byte {
+	c := fresh(y)
+	if len(c) == 0 {
+		return c
+	}
+	lo := 5
+	if len(c) <= lo {
+		lo = 0
+	}
+	c[lo+rng.Intn(len(c)-lo)] ^= 1 << uint(rng.Intn(8))
+	return c
+}
+
+// otherPrefix picks a member prefix different from p, preferring a member with c's material.
+func (e *env) otherPrefix(c *kspec, p []byte) []byte {
+	var same, any [][]byte
+	for _, m := range e.members {
+		if len(m.prefix) == 0 || bytes.Equal(m.prefix, p) || m == c {
+			continue
+		}
+		any = append(any, m.prefix)
+		if m.matSeed == c.matSeed && m.kind == c.kind {
+			same = append(same, m.prefix)
+		}
+	}
+	if len(same) > 0 && e.rng.Chance(75) {
+		return same[e.rng.Intn(len(same))]
+	}
+	if len(any) > 0 {
+		return any[e.rng.Intn(len(any))]
+	}
+	return nil
+}
+
+func (e *env) newIn() probeIn {
+	return probeIn{pt: e.rng.Bytes(e.rng.Pick(0, 1, 7, 16, 33, 70, 130)), x: e.rng.Bytes(e.rng.Pick(0, 1, 5, 12, 32))}
+}
+
+func (e *env) probeCandidate(c *kspec, src string, nmut int) {
+	rng := e.rng
+	in := e.newIn()
+	tape.next()
+	y, err := c.produce(in)
+	if err != nil {
+		panic(fmt.Sprintf("single-key %s (%s) cannot produce: %v", c.label, e.f.name, err))
+	}
+	e.probe(y, in, src, "genuine")
+	if e.f.name == "aead" && len(c.prefix) == 0 && rng.Chance(60) {
+		// a RAW AEAD ciphertext starts with the random nonce: make that nonce start with a member's
+		// 5 prefix bytes, so that the ciphertext of the RAW key sits in that member's prefix bucket
+		if p := e.otherPrefix(c, nil); p != nil {
+			tape.next()
+			tape.force = fresh(p)
+			y2, err := c.produce(in)
+			if err != nil {
+				panic(err)
+			}
+			if bytes.HasPrefix(y2, p) {
+				e.probe(y2, in, src, "raw-nonce=member-prefix")
+			} else {
+				e.o.Count("aead/nonce-not-forced/" + c.label)
+			}
+		}
+	}
+	type mu struct {
+		kind string
+		y    []byte
+	}
+	var ms []mu
+	if e.f.cmd == "accept" || e.f.cmd == "mac" {
+		if len(c.prefix) > 0 && len(y) >= 5 {
+			ms = append(ms, mu{"strip-prefix", y[5:]})
+			if p := e.otherPrefix(c, c.prefix); p != nil {
+				ms = append(ms, mu{"re-prefix", append(fresh(p), y[5:]...)})
+			}
+		}
+		if len(c.prefix) == 0 {
+			if p := e.otherPrefix(c, nil); p != nil {
+				ms = append(ms, mu{"add-prefix", append(fresh(p), y...)})
+			}
+		}
+	}
+	k := rng.Intn(6)
+	if k > len(y) {
+		k = len(y)
+	}
+	ms = append(ms, mu{"truncate<=5", y[:k]}, mu{"bit-flip", flipBit(rng, y)})
+	// draw nmut of them without replacement
+	for i := 0; i < nmut && len(ms) > 0; i++ {
+		j := rng.Intn(len(ms))
+		e.probe(ms[j].y, in, src, ms[j].kind)
+		ms = append(ms[:j], ms[j+1:]...)
+	}
+}
+
+func (e *env) producerCheck() {
+	o, f := e.o, e.f
+	p := e.primary()
+	in := e.newIn()
+	tape.next()
+	r1 := e.call(f.prodCtx, "produce", func() ([]byte, error) { return e.w1.produce(in) })
+	e.spy.reset()
+	tape.next()
+	r2 := e.call(f.prodCtx, "produce(spied)", func() ([]byte, error) { return e.w2.produce(in) })
+	wi := e.workerIdx()
+	res := "fail"
+	if r1.ok {
+		pre := "-"
+		if len(p.prefix) > 0 {
+			n := len(r1.out)
+			if n > 5 {
+				n = 5
+			}
+			pre = hlib.Tok(r1.out[:n])
+		}
+		switch {
+		case f.hasLog && r1.logged >= 0:
+			res = fmt.Sprintf("ok %d %s", r1.logged, pre)
+		case f.hasLog:
+			res = "ok nolog " + pre
+		case wi >= 0:
+			res = fmt.Sprintf("ok %d %s", e.members[wi].id, pre)
+		default:
+			res = "ok unknown-worker " + pre
+		}
+	}
+	o.Emit("W producer", res, e.nontriv)
+	o.Count(f.name + "/producer/primary=" + vnames[p.variant] + "/" + map[bool]string{true: "legacy-adapter", false: "full"}[p.legacy])
+	if !r1.ok || !r2.ok {
+		vio(o, "%s keyset [%s]: the keyset primitive cannot produce", f.name, strings.TrimPrefix(e.keysLine(), "W keys "))
+		return
+	}
+	for n, r := range []outcome{r1, r2} {
+		if !bytes.HasPrefix(r.out, p.prefix) {
+			vio(o, "%s keyset [%s]: produced output %s does not start with the primary key's prefix %x", f.name, strings.TrimPrefix(e.keysLine(), "W keys "), hlib.Tok(r.out), p.prefix)
+		}
+		ok, out := p.accepts(r.out, in)
+		if !ok || !bytes.Equal(out, payloadOf(f, in)) {
+			vio(o, "%s keyset [%s]: produced output %s is not valid under the primary key %d alone", f.name, strings.TrimPrefix(e.keysLine(), "W keys "), hlib.Tok(r.out), p.id)
+		}
+		if f.hasLog && r.logged != int64(p.id) {
+			vio(o, "%s keyset [%s]: producing logged key id %d, the primary is %d", f.name, strings.TrimPrefix(e.keysLine(), "W keys "), r.logged, p.id)
+		}
+		if n == 1 && (wi < 0 || e.members[wi] != p) {
+			vio(o, "%s keyset [%s]: the producing call was not served by the primary key's primitive (worker index %d)", f.name, strings.TrimPrefix(e.keysLine(), "W keys "), wi)
+		}
+	}
+	// the keyset primitive must accept its own output (and log the primary or an equal key)
+	e.probe(r1.out, in, "wrapped", "genuine")
+}
+
+// payloadOf: what a successful acceptance returns for in.
+func payloadOf(f *family, in probeIn) []byte {
+	switch f.name {
+	case "mac", "signature":
+		return nil
+	case "jwtmac", "jwtsig":
+		return []byte(fmt.Sprintf("iss-%x", in.pt))
+	}
+	return in.pt
+}
+
+// ---------------------------------------------------------------- PRF sets
+
+func (e *env) prfCheck() {
+	o, f := e.o, e.f
+	var implIDs []uint32
+	for id := range e.w1.prfs.PRFs {
+		implIDs = append(implIDs, id)
+	}
+	o.Emit("W prfids", fmt.Sprintf("%s | %d", hlib.U32List(hlib.SortedU32(implIDs)), e.w1.prfs.PrimaryID), e.nontriv)
+	ks := strings.TrimPrefix(e.keysLine(), "W keys ")
+	for n, w := range []*wrapped{e.w1, e.w2} {
+		set := w.prfs
+		if len(set.PRFs) != len(e.w1.prfs.PRFs) || set.PrimaryID != e.w1.prfs.PrimaryID {
+			vio(o, "prf keyset [%s]: NewPRFSet and NewPRFSetWithConfig differ", ks)
+		}
+		for i, m := range e.members {
+			p, present := set.PRFs[m.id]
+			if present != (m.status == keyset.Enabled) {
+				vio(o, "prf keyset [%s]: key %d is %v but present=%v in the PRF set", ks, m.id, m.status, present)
+			}
+			if !present {
+				o.Count("prf/not-in-set/" + statusLetter[m.status])
+				continue
+			}
+			in := e.rng.Bytes(e.rng.Pick(0, 1, 16, 40))
+			want, err := m.prfOut(in, 16)
+			if err != nil {
+				panic(err)
+			}
+			e.spy.reset()
+			r := e.call(f.prodCtx, "ComputePRF", func() ([]byte, error) { return p.ComputePRF(fresh(in), 16) })
+			o.Count("prf/compute/" + m.label)
+			if !r.ok || !bytes.Equal(r.out, want) {
+				vio(o, "prf keyset [%s]: PRFs[%d] does not compute key %d's PRF", ks, m.id, m.id)
+			}
+			if r.ok && r.logged != int64(m.id) {
+				vio(o, "prf keyset [%s]: PRFs[%d] logged key id %d", ks, m.id, r.logged)
+			}
+			if n == 1 && e.workerIdx() != i {
+				vio(o, "prf keyset [%s]: PRFs[%d] was served by member index %d, not %d", ks, m.id, e.workerIdx(), i)
+			}
+		}
+		p := e.primary()
+		in := e.rng.Bytes(12)
+		want, _ := p.prfOut(in, 13)
+		r := e.call(f.prodCtx, "ComputePrimaryPRF", func() ([]byte, error) { return set.ComputePrimaryPRF(fresh(in), 13) })
+		if !r.ok || !bytes.Equal(r.out, want) || r.logged != int64(p.id) {
+			vio(o, "prf keyset [%s]: ComputePrimaryPRF is not the primary key %d's PRF (logged %d)", ks, p.id, r.logged)
+		}
+	}
+	// outputs of removed / foreign keys are simply not reachable through the set: their ids are absent
+	for _, c := range append(append([]*kspec{}, e.removed...), e.foreign...) {
+		if _, present := e.w1.prfs.PRFs[c.id]; present {
+			clash := false
+			for _, m := range e.members {
+				if m.id == c.id {
+					clash = true
+				}
+			}
+			if !clash {
+				vio(o, "prf keyset [%s]: the set serves id %d of a %s key", ks, c.id, c.role)
+			}
+		}
+		o.Count("prf/absent/" + c.role)
+	}
+}
+
+// ---------------------------------------------------------------- one case
+
+func runCase(o *hlib.Out, rng *hlib.Rng, f *family, caseNo int) {
+	e := &env{o: o, rng: rng, f: f, caseNo: caseNo, keyIdx: map[key.Key]int{}, spy: &spyLog{}}
+	tape.next()
+	internalregistry.ClearMonitoringClient()
+	e.client = fakemonitoring.NewClient("c05")
+	if err := internalregistry.RegisterMonitoringClient(e.client); err != nil {
+		panic(err)
+	}
+	defer internalregistry.ClearMonitoringClient()
+
+	ids := &idAlloc{rng: rng, used: map[uint32]bool{}}
+	size := []int{1, 2, 2, 2, 3, 3, 3, 4, 4, 5, 5, 6}[rng.Intn(12)]
+	km := keyset.NewManager()
+	var unused []*kspec
+	if rng.Chance(45) {
+		e.build = "direct"
+		e.buildDirect(km, e.pool(size, ids))
+	} else {
+		e.build = "history"
+		unused = e.buildHistory(km, e.pool(size+rng.Intn(4), ids))
+	}
+	for _, r := range e.removed {
+		r.role = "removed"
+	}
+	// foreign keys: never in this keyset
+	for i, u := range unused {
+		if i < 2 {
+			u.role = "foreign"
+			e.foreign = append(e.foreign, u)
+		}
+	}
+	if len(e.foreign) == 0 || rng.Chance(40) {
+		k := e.pickKind()
+		s := e.mk(k, pickOf(rng, f.variants(k)), ids.next(), fmt.Sprintf("c05/%s/%d/f", f.name, caseNo), nil)
+		s.role = "foreign"
+		e.foreign = append(e.foreign, s)
+	}
+	// a foreign key with the SAME id (hence the same prefix bytes / kid) as a member but other material;
+	// CRUNCHY↔LEGACY where the key type has both: identical prefix bytes under a different variant
+	if m := e.members[rng.Intn(len(e.members))]; m.variant != vR && m.variant != vK || f.cmd == "tryall" || f.cmd == "prf" {
+		v := m.variant
+		if vs := f.variants(m.kind); v == vC && has(vs, vL) {
+			v = vL
+		} else if v == vL {
+			v = vC
+		}
+		k := m.kind
+		if rng.Chance(40) {
+			k = e.pickKind()
+			if !has(f.variants(k), v) {
+				k = m.kind
+			}
+		}
+		s := e.mk(k, v, m.id, fmt.Sprintf("c05/%s/%d/clash", f.name, caseNo), nil)
+		s.role = "foreign-same-id"
+		e.foreign = append(e.foreign, s)
+		// such a key cannot become a member: ids are unique within a keyset (manager and keyset validation)
+		_, needID := s.key.IDRequirement()
+		opts := []keyset.KeyOpts{}
+		if !needID {
+			opts = append(opts, keyset.WithFixedID(m.id))
+		}
+		if _, err := km.AddKeyWithOpts(s.key, internalapi.Token{}, opts...); err == nil {
+			vio(o, "%s: the manager accepted a second key with id %d", f.name, m.id)
+			return
+		}
+		o.Count(f.name + "/structure/same-id-second-member-refused/" + vnames[m.variant] + "+" + vnames[v])
+	}
+	// a foreign key with a member's MATERIAL under an id that is not in the keyset
+	if rng.Chance(35) {
+		m := e.members[rng.Intn(len(e.members))]
+		if !(f.name == "signature" && m.kind == 5) {
+			s := e.mk(m.kind, m.variant, ids.next(), m.matSeed, m.hdr)
+			s.role = "foreign-same-material"
+			e.foreign = append(e.foreign, s)
+		}
+	}
+
+	addErr(km.SetAnnotations(annotations))
+	priv := must(km.Handle())
+	if rng.Chance(30) {
+		e.build += "+serialised"
+		priv = roundTrip(priv, keyset.WithAnnotations(annotations))
+	}
+	var pub *keyset.Handle
+	if f.public {
+		p0 := must(priv.Public()) // carries no annotations: re-annotate it the two supported ways
+		if rng.Bool() {
+			pm := keyset.NewManagerFromHandle(p0)
+			addErr(pm.SetAnnotations(annotations))
+			pub = must(pm.Handle())
+		} else {
+			pub = roundTrip(p0, keyset.WithAnnotations(annotations))
+		}
+	}
+	okH := e.checkHandle(priv, "private/symmetric", false)
+	if pub != nil {
+		okH = e.checkHandle(pub, "public", true) && okH
+	}
+	e.nontriv = len(e.members) >= 2
+	o.Count(f.name + "/keysets")
+	o.Count(fmt.Sprintf("%s/size=%d", f.name, len(e.members)))
+	o.Count(f.name + "/build=" + e.build)
+	nraw := 0
+	for i, m := range e.members {
+		o.Count(fmt.Sprintf("%s/key/%s", f.name, m.label))
+		o.Count(fmt.Sprintf("%s/variant=%s/%s", f.name, vnames[m.variant], statusLetter[m.status]))
+		if m.primary {
+			o.Count(fmt.Sprintf("%s/primary-at=%d", f.name, i))
+		}
+		if m.id == 0 || m.id == 0xFFFFFFFF {
+			o.Count(fmt.Sprintf("%s/id=%d", f.name, m.id))
+		}
+		if len(m.prefix) == 0 && (f.cmd == "accept" || f.cmd == "mac") {
+			nraw++
+		}
+	}
+	if nraw >= 2 {
+		o.Count(f.name + "/structure/two-or-more-raw")
+	}
+	o.Emit(e.keysLine(), "ok", e.nontriv)
+	if !okH {
+		return
+	}
+
+	w1, err := f.wrap(priv, pub, nil)
+	if err != nil {
+		vio(o, "%s keyset [%s]: the factory refuses a valid keyset: %v", f.name, strings.TrimPrefix(e.keysLine(), "W keys "), err)
+		return
+	}
+	cfg := &spyCfg{fam: f.name, log: e.spy}
+	w2, err := f.wrap(priv, pub, cfg)
+	if err != nil {
+		vio(o, "%s keyset [%s]: the WithConfig factory refuses a valid keyset: %v", f.name, strings.TrimPrefix(e.keysLine(), "W keys "), err)
+		return
+	}
+	e.w1, e.w2 = w1, w2
+	if rng.Chance(50) {
+		// the same keyset without annotations; the public handle exactly as Handle.Public() returns it
+		addErr(km.SetAnnotations(nil))
+		privU := must(km.Handle())
+		var pubU *keyset.Handle
+		if f.public {
+			pubU = must(privU.Public())
+		}
+		w3, err := f.wrap(privU, pubU, nil)
+		if err != nil {
+			vio(o, "%s keyset [%s]: the factory refuses the un-annotated handle: %v", f.name, strings.TrimPrefix(e.keysLine(), "W keys "), err)
+			return
+		}
+		e.w3 = w3
+	}
+	if cfg.nLegacy > 0 {
+		o.Count(f.name + "/keysets-with-legacy-adapter")
+	}
+	if f.cmd == "prf" {
+		e.prfCheck()
+		return
+	}
+	e.producerCheck()
+	nmut := 2
+	for _, m := range e.members {
+		e.probeCandidate(m, statusLetter[m.status], nmut)
+	}
+	for _, c := range e.removed {
+		e.probeCandidate(c, c.role, nmut)
+	}
+	for _, c := range e.foreign {
+		e.probeCandidate(c, c.role, nmut)
+	}
+}
 
 func main() {
-	o := hlib.Open("c05")
+	o := hlib.Open("C05")
 	defer o.Close()
-	o.Emit("W keys 9:E:1:-", "ok", true)
-	o.Emit("W producer", "ok 9 -", true)
+	registerStubs()
+	tape = &detTape{seed: *hlib.FlagSeed, counts: map[int]int{}}
+	rand.Reader = tape
+	quick := map[string]int{"aead": 300, "daead": 160, "mac": 300, "signature": 200, "hybrid": 160, "jwtmac": 160, "jwtsig": 100, "streamingaead": 200, "prf": 160}
+	fams := families()
+	caseNo := 0
+	for _, f := range fams {
+		rng := hlib.NewRng(*hlib.FlagSeed, "c05/"+f.name)
+		n := hlib.N(quick[f.name], 20*quick[f.name])
+		for c := 0; c < n; c++ {
+			caseNo++
+			o.Case()
+			runCase(o, rng, f, caseNo)
+		}
+	}
 }
